@@ -17,6 +17,7 @@ RULE = ("cases are drawn from random.Random(VERIF_SEED): shapes of order 1..4 (5
         "is accepted by the implementation and has a non-empty answer; distinct = distinct case hash")
 ASSUMPTIONS = ["np.ravel_multi_index / np.unravel_index / np.unique / np.argsort / np.setdiff1d behave as the "
                "model primitives of the same name (exercised by this very correspondence)"]
+ANCHORS = [('pyttb/pyttb_utils.py', 'tt_sub2ind'), ('pyttb/pyttb_utils.py', 'tt_ind2sub'), ('pyttb/pyttb_utils.py', 'tt_dimscheck'), ('pyttb/pyttb_utils.py', 'tt_ismember_rows'), ('pyttb/pyttb_utils.py', 'tt_intersect_rows'), ('pyttb/pyttb_utils.py', 'tt_setdiff_rows'), ('pyttb/pyttb_utils.py', 'tt_union_rows'), ('pyttb/khatrirao.py', 'khatrirao')]
 EXHAUSTIVE = {"quick": False, "thorough": False}
 
 
